@@ -4,6 +4,7 @@ import (
 	"fmt"
 	"math"
 	"math/rand"
+	"reflect"
 	"strings"
 
 	"github.com/textwire/textwire/v2/object"
@@ -435,6 +436,72 @@ func init() {
 							try("{{ " + x + " " + op + " " + y + " }}")
 							try("{{ " + y + " " + op + " " + x + " }}")
 						}
+					}
+				}})
+			// several goroutines evaluate at once, with property names, struct types and function names never seen before
+			secs = append(secs, core.Section{Name: "concurrent-evaluation", N: 16,
+				Run: func(c *core.Ctx, i int) {
+					c.Input(map[string]any{"goroutines": 8, "inputs_each": 200, "round": i})
+					c.Nontrivial(fmt.Sprint("burst", i, c.Seed))
+					concurrentBurst(c, 8, 200, func(g, n int) (string, map[string]any, string) {
+						id := fmt.Sprintf("%d_%d_%d_%d", c.Seed, i, g, n)
+						st := reflect.StructOf([]reflect.StructField{{Name: "F", Type: reflect.TypeOf(0)}, {Name: "X" + id, Type: reflect.TypeOf("")}})
+						sv := reflect.New(st).Elem()
+						sv.Field(0).SetInt(int64(n))
+						sv.Field(1).SetString("x" + id)
+						src := "{{ u.k" + id + " }} {{ s.f }} {{ s.x" + id + " }} {{ {zz" + id + ": 1, aa: 2}.aa }} {{ \"ab\".len() }} {{ [3, 1].len() }}"
+						data := map[string]any{"u": map[string]any{"K" + id: n}, "s": sv.Interface()}
+						return src, data, fmt.Sprintf("%d %d x%s 2 2 2", n, n, id)
+					})
+				}})
+			// one call site evaluated in several passes with receivers of changing kinds, for every built-in name
+			mixedRecvs := []string{`"abc"`, "[1, 2]", "7", "2.5", "true", "nil", "{a: 1}", "nilp", "row"}
+			secs = append(secs, core.Section{Name: "loop-call-sites", Exhaustive: true, N: len(allBuiltinNames) * len(mixedRecvs),
+				Run: func(c *core.Ctx, i int) {
+					name := allBuiltinNames[i%len(allBuiltinNames)]
+					first := mixedRecvs[i/len(allBuiltinNames)]
+					try := func(src string) {
+						c.Input(map[string]any{"source": src, "data": "hostileData()"})
+						got := evalString(c, src, data)
+						c.Nontrivial(src)
+						checkOutcome(c, got, src, true)
+					}
+					for _, second := range mixedRecvs {
+						if second == first {
+							continue
+						}
+						for _, args := range []string{"", "1", `"a"`, "0, 2"} {
+							// the elements sit in objects (a loop variable keeps its kind, a property need not)
+							try("{{ items = [{v: " + first + "}, {v: " + second + "}, {v: " + first + "}] }}@each(item in items)[{{ item.v." + name + "(" + args + ") }}]@end")
+							try("{{ xs = [" + first + ", " + second + "] }}@for(k = 0; k < 2; k++)[{{ xs[k]." + name + "(" + args + ") }}]@end")
+							try("@each(k in [0, 1, 0])[{{ (k == 0 ? " + first + " : " + second + ")." + name + "(" + args + ") }}]@end")
+						}
+					}
+				}})
+			// values nested far deeper than any page would: printed, dumped, walked, compared
+			depths := []int{15, 16, 17, 18, 31, 32, 33, 64, 65, 200}
+			secs = append(secs, core.Section{Name: "deep-nesting", Exhaustive: true, N: len(depths) * 2,
+				Run: func(c *core.Ctx, i int) {
+					d := depths[i/2]
+					var v any = 1
+					lit := "1"
+					path := ""
+					for k := 0; k < d; k++ {
+						if i%2 == 0 {
+							v, lit, path = []any{v}, "["+lit+"]", "[0]"+path
+						} else if k%2 == 0 {
+							v, lit, path = map[string]any{"k": v}, "{k: "+lit+"}", ".k"+path
+						} else {
+							v, lit, path = []any{v, "x"}, "["+lit+", \"x\"]", "[0]"+path
+						}
+					}
+					dd := map[string]any{"v": v}
+					for _, src := range []string{"{{ v }}", "@dump(v)", "{{ v" + path + " }}", "{{ v.len() }}", "@each(e in v){{ e }}@end", "{{ " + lit + " }}", "@dump(" + lit + ")", "{{ x = " + lit + " }}{{ x" + path + " }}",
+						"{{ [v].contains(v) }}", "@dump(v, v)", "@if(v)y@end", "{{ v ? 1 : 2 }}"} {
+						c.Input(map[string]any{"source": clipS(src, 300), "nesting_depth": d})
+						got := evalString(c, src, dd)
+						c.Nontrivial(fmt.Sprint(d, i%2, clipS(src, 40)))
+						checkOutcome(c, got, clipS(src, 300), true)
 					}
 				}})
 			// a failing expression in every place of a template tree, also where the value is never used:
